@@ -21,7 +21,11 @@
 (*    typechecks : "yes" | "no" | "skipped"  (go build without the cff tag *)
 (*               of the module after the run),                             *)
 (*    surviving : number of calls to code-generation directives found in   *)
-(*               the written files]                                        *)
+(*               the written files,                                        *)
+(*    fresh    : the outputs did not exist before the run; otherwise stale *)
+(*               says what they held ("same" | "longer" | "shorter") and   *)
+(*    final    : the content hash of each output after the run ("" if it   *)
+(*               does not exist)]                                          *)
 (*                                                                         *)
 (* The monitor keeps H, the content the tool is known to produce for a     *)
 (* (package, source file, mode, flags) - unknown until first observed,     *)
@@ -53,12 +57,17 @@ Learn(g, e, k) ==
   IF k > Len(e.selected) THEN g
   ELSE LET out == e.outputs[k]
            key == KeyOf(e, k)
-       IN IF out \notin WrittenPaths(e) THEN Learn(g, e, k + 1)
-          ELSE LET h == WrittenHash(e, out) IN
+           \* a run over outputs that existed beforehand (e.fresh = FALSE: left from an earlier run, or an older
+           \* longer / shorter text planted by the harness) must leave exactly what a run from scratch writes;
+           \* a successful run that does not touch the file is an observation too (e.final[k] = its content now)
+           observed == out \in WrittenPaths(e) \/ (~e.fresh /\ e.rc = 0 /\ e.final[k] # "")
+       IN IF ~observed THEN Learn(g, e, k + 1)
+          ELSE LET h == IF out \in WrittenPaths(e) THEN WrittenHash(e, out) ELSE e.final[k] IN
                IF Known(g, key)
                THEN Learn(IF HashOf(g, key) = h THEN g
                           ELSE [g EXCEPT !.viol = @ \cup {V(e, "C17", "output for " \o e.selected[k] \o
-                                      " differs from an earlier generation of the same file, package, mode and flags")}],
+                                      (IF e.fresh THEN " differs from an earlier generation of the same file, package, mode and flags"
+                                       ELSE " depends on what the output file held before the run (" \o e.stale \o ")"))}],
                           e, k + 1)
                ELSE Learn([g EXCEPT !.H = Append(@, <<key, h>>)], e, k + 1)
 
